@@ -66,7 +66,7 @@ func r061(c *Ctx, r *R) {
 	}
 	// every append whose result can be returned is guarded by Match(filter)
 	n := 0
-	for _, ci := range callsIn(f) {
+	for _, ci := range callsInDeep(f) { // StatusAll and the helpers extracted from it
 		if callName(ci.Common()) != "builtin.append" {
 			continue
 		}
@@ -91,7 +91,7 @@ func r061(c *Ctx, r *R) {
 	// CID, unconditionally (a filter applied at this point keeps the stale
 	// local entry of an operation that does not match the filter).
 	var getAll *ssa.Call
-	for _, ci := range callsIn(f) {
+	for _, ci := range callsInDeep(f) {
 		if nameMatches(callName(ci.Common()), "optracker.OperationTracker).GetAll") {
 			getAll, _ = ci.(*ssa.Call)
 		}
@@ -101,7 +101,7 @@ func r061(c *Ctx, r *R) {
 		return
 	}
 	overlays := 0
-	instrs(f, func(i ssa.Instruction) {
+	instrsDeep(f, func(i ssa.Instruction) {
 		mu, ok := i.(*ssa.MapUpdate)
 		if !ok {
 			return
@@ -118,6 +118,9 @@ func r061(c *Ctx, r *R) {
 		overlays++
 		var extra []string
 		for _, g := range guardsOf(mu.Block()) {
+			if g.If.Parent() != getAll.Parent() {
+				continue // a guard of the call site of the helper the overlay lives in: decided before
+			}
 			if g.If.Block() == getAll.Block() || g.If.Block().Dominates(getAll.Block()) {
 				continue // decided before the operation list was taken
 			}
